@@ -19,7 +19,7 @@
      - the scheduler model [step_choice] is not tied to LaunchedSim::step by a per-run
        correspondence other than end-to-end outcome sets. *)
 From Coq Require Import List Arith Bool NArith Permutation.
-From HV Require Import Sim.Model Sim.PHooks Sim.PTick Sim.PComplete Sim.PCompleteK Sim.PCompleteTick Sim.PUniqueK Sim.PUniqueH Sim.ModelTop Sim.PTop.
+From HV Require Import Sim.Model Sim.PHooks Sim.PTick Sim.PComplete Sim.PCompleteK Sim.PCompleteTick Sim.PUniqueK Sim.PUniqueH Sim.ModelTop Sim.PTop Sim.PTop2.
 Import ListNotations.
 Close Scope N_scope.
 
@@ -209,6 +209,54 @@ Theorem C37_top_keyed_every_item : forall (A K : Type) front force (m1 : list (K
              = Ok ([(k, x)], m1 ++ (k, a ++ b) :: m2, [], true).
 Proof. intros A K. exact (@top_keyed_complete A K). Qed.
 Print Assumptions C37_top_keyed_every_item.
+
+(* the last four hook kinds: completeness *)
+Theorem C37_top_kmerge_every_front : forall (A K : Type) force,
+  (forall (p s m2 : list (K * list A)) k (x : A) b,
+     exists ds, decide_top_kmerge force (p ++ (k, x :: b) :: s) m2 ds
+                = Ok ([(k, x)], p ++ (k, b) :: s, m2, [], true))
+  /\ (forall (m1 p s : list (K * list A)) k (x : A) b,
+        exists ds, decide_top_kmerge force m1 (p ++ (k, x :: b) :: s) ds
+                   = Ok ([(k, x)], m1, p ++ (k, b) :: s, [], true)).
+Proof.
+  intros A K force. split.
+  - intros. apply top_kmerge_complete_first.
+  - intros. apply top_kmerge_complete_second.
+Qed.
+Print Assumptions C37_top_kmerge_every_front.
+
+Theorem C37_inline_partial_every_interleaving : forall (A K : Type) (gs : list (K * list A)) out gs',
+  POSteps gs out gs' -> count_ne gs' = 0 ->
+  forall f, length out <= f -> exists ds, po_loop f gs ds = Ok (out, []).
+Proof. intros A K. exact (@partial_complete A K). Qed.
+Print Assumptions C37_inline_partial_every_interleaving.
+
+Theorem C37_inline_kmerge_every_interleaving : forall (A K : Type) (gs : list (K * (list A * list A))) out,
+  KMerged gs out -> exists ds, kmerge gs ds = Ok (out, []).
+Proof. intros A K. exact (@kmerge_complete A K). Qed.
+Print Assumptions C37_inline_kmerge_every_interleaving.
+
+(* uniqueness for the observation / inline hooks: holds unconditionally for the top-level
+   merge_ordered hook; it does NOT hold for hooks that pick by position when items are
+   indistinguishable -- two decision strings, one outcome (witnesses, not defects: the
+   exhaustive search then explores an equivalent schedule twice) *)
+Theorem C37_top_merge_no_duplicate : forall (A : Type) force (q1 q2 : list A) d1 d2 rel r1 r2 n1 n2,
+  decide_top_merge force q1 q2 d1 = Ok (rel, r1, r2, [], n1) ->
+  decide_top_merge force q1 q2 d2 = Ok (rel, r1, r2, [], n2) -> d1 = d2.
+Proof. intros A. exact (@top_merge_unique A). Qed.
+Print Assumptions C37_top_merge_no_duplicate.
+
+Theorem C37_positional_hooks_duplicate_refuted :
+  (exists (q : list nat) d1 d2 o, d1 <> d2 /\ decide_top_order true q d1 = Ok o /\ decide_top_order true q d2 = Ok o)
+  /\ (exists (a b : list nat) d1 d2 o, d1 <> d2 /\ decide_merge a b d1 = Ok o /\ decide_merge a b d2 = Ok o)
+  /\ (exists (l : list nat) d1 d2 o, d1 <> d2 /\ decide_shuffle l d1 = Ok o /\ decide_shuffle l d2 = Ok o).
+Proof.
+  split; [|split].
+  - exists [1; 1], [0], [1], ([1], [1], [], true). split; [discriminate|split; reflexivity].
+  - exists [1], [1], [0], [1], ([1; 1], []). split; [discriminate|split; reflexivity].
+  - exists [1; 1], [0], [1], ([1; 1], []). split; [discriminate|split; reflexivity].
+Qed.
+Print Assumptions C37_positional_hooks_duplicate_refuted.
 
 (* non-vacuity *)
 Example C37_ex_subset :
